@@ -158,6 +158,8 @@ func TestVF_C05_Sessions(t *testing.T) {
 	rapid.Check(t, func(t *rapid.T) { runC05(t, st) })
 }
 
+var c05Sampled [2]bool
+
 func runC05(t *rapid.T, st *vfhelp.Stats) {
 	kind := kRegular
 	if rapid.IntRange(0, 2).Draw(t, "kind") == 0 {
@@ -408,7 +410,14 @@ func runC05(t *rapid.T, st *vfhelp.Stats) {
 	var canon bytes.Buffer
 	fmt.Fprintf(&canon, "%v/%d/%v/%v|%s|%v", kind, limit, env.cfg.SnapshotCompressionType, env.cfg.EntryCompressionType, canonStream(meta), cuts)
 	st.Case(canon.Bytes(), nt, labels...)
-	if nt && st.WantSample() && len(ents) <= 40 {
+	which := -1
+	if dupAfterCut["cached"] > 0 {
+		which = 0
+	} else if model.victimByProposal > 0 {
+		which = 1
+	}
+	if which >= 0 && !c05Sampled[which] && len(ents) <= 40 {
+		c05Sampled[which] = true
 		st.Sample(map[string]interface{}{
 			"kind": kind.String(), "lru_limit": limit, "clients": nClients,
 			"entries": renderStream(ents, meta, 60), "cuts_on_B": fmt.Sprint(cuts),
